@@ -459,6 +459,13 @@ def scrape_counter():
     facts["struct_size_checked"] = sz_checked
     if sz_checked == sz_unchecked:
         problems.append("struct_verifier.rs: how the struct size is accumulated is not recognised")
+    mirsrc = read("idlc_mir/src/mir.rs")
+    mir_checked = bool(re.search(r"size\s*\.checked_mul\(usize::from\(count\.get\(\)\)\)\s*\.unwrap_or_else\(\|\| \{?\s*panic!", mirsrc)) and \
+        bool(re.search(r"acc\.checked_add\(e\.size\(\)\)\.unwrap_or_else\(\|\| \{\s*panic!", mirsrc))
+    mir_unchecked = "size * usize::from(count.get())" in mirsrc and "fold(0, |acc, e| acc + e.size())" in mirsrc
+    facts["mir_size_checked"] = mir_checked
+    if mir_checked == mir_unchecked:
+        problems.append("mir.rs: how StructField::size / StructInner::size multiply and add is not recognised")
     lib = read("idlc/src/lib.rs")
     facts["lib_runs_interface_verifier"] = bool(re.search(r"parse_to_mir\(&ast, &mut idl_store\);.*?interface_verifier::InterfaceVerifier::new\(&mir\)\.run_pass\(\);.*?Generator::generate\(&mir\)", lib, re.S))
     iv = read("idlc_mir_passes/src/interface_verifier.rs")
@@ -483,9 +490,11 @@ def render_counter(facts):
             "(* interface_verifier.rs: a second object array of one direction / an input array of a small object struct *)\n"
             "Definition verifier_rejects_second_objarr : bool := %s.\nDefinition verifier_small_objstruct_in_array : bool := %s.\n"
             "(* idl_store.rs gather_symbols_from_ast: types and constants share one namespace *)\nDefinition symbols_one_namespace : bool := %s.\n"
+            "(* mir.rs StructField::size / StructInner::size: checked_mul / checked_add with a diagnostic *)\nDefinition mir_size_checked : bool := %s.\n"
             % ("true" if facts["counter_checked"] else "false", facts["counter_limit"], "true" if facts["struct_size_checked"] else "false",
                "true" if facts["lib_runs_interface_verifier"] else "false", "true" if facts["verifier_rejects_second_objarr"] else "false",
-               "true" if facts["verifier_small_objstruct_in_array"] else "false", "true" if facts["symbols_one_namespace"] else "false"))
+               "true" if facts["verifier_small_objstruct_in_array"] else "false", "true" if facts["symbols_one_namespace"] else "false",
+               "true" if facts["mir_size_checked"] else "false"))
 
 
 def scrape_consts():
